@@ -51,12 +51,18 @@ func cts(t uint64) int {
 	return p*1000 + l
 }
 
+// the key universe is prefix-nested on purpose ("k" < "k0" < "k00" < "k1" < ...): a key that extends another one is what
+// distinguishes NextKey from PrefixNextKey and exercises range ends that are prefixes of keys
+var keyTable = []string{"", "k", "k0", "k00", "k1", "k2", "k3", "k4", "k5", "k6"}
+
 func keyIdx(k []byte) int {
-	if len(k) == 2 && k[0] == 'k' && k[1] >= '1' && k[1] <= '9' {
-		return int(k[1] - '0')
-	}
 	if len(k) == 0 {
 		return 0
+	}
+	for i := 1; i < len(keyTable); i++ {
+		if string(k) == keyTable[i] {
+			return i
+		}
 	}
 	return -1
 }
@@ -64,7 +70,7 @@ func keyOf(i int) []byte {
 	if i <= 0 {
 		return nil
 	}
-	return []byte{'k', byte('0' + i)}
+	return []byte(keyTable[i])
 }
 func keysOf(is []int) [][]byte {
 	out := make([][]byte, len(is))
